@@ -450,6 +450,10 @@ func genStyledSubs(r *rng) *astisub.Subtitles {
 		if r.bool() {
 			s.Metadata.SSAScriptType = "v4.00+"
 		}
+		if r.chance(1, 3) {
+			s.Metadata.STLTimecodeStartOfProgramme = time.Duration([]int{1, 10}[r.intn(2)]) * time.Hour
+			s.Metadata.STLDisplayStandardCode = "0"
+		}
 	}
 	return s
 }
